@@ -33,6 +33,21 @@ def correspondence(tier, rng):
     return kernels.add_pn_kernel_corr(base, rng, 120 if tier == "quick" else 720, "C10p")
 
 
+def _same_solution(X, w, wref, rtol, atol):
+    """same solution up to tolerance; a design with linearly dependent columns (duplicated or opposite contrast columns) has no
+    unique minimiser -- the solution is then determined only through its fit X w, and that is what is compared"""
+    w, wref = np.asarray(w, dtype=float), np.asarray(wref, dtype=float)
+    if w.shape != wref.shape:
+        return False
+    if np.allclose(w, wref, rtol=rtol, atol=atol):
+        return True
+    X = np.asarray(X, dtype=float)
+    p = X.shape[1]
+    if np.linalg.matrix_rank(X) < p:
+        return bool(np.allclose(X @ w[:p], X @ wref[:p], rtol=1e-4, atol=1e-4) and np.allclose(w[p:], wref[p:], rtol=1e-4, atol=1e-4))
+    return False
+
+
 def oracle(tier, rng, deep=False):
     failures = []
     ev = nontriv = 0
@@ -73,7 +88,7 @@ def oracle(tier, rng, deep=False):
                     dfc.initialize(Xc, target)
                 w, _, _ = solver.solve(Xc, target, dfc, sl.cc(pen))
                 ev += 1
-                if not np.allclose(np.asarray(w), wref, rtol=1e-6, atol=10 * spec["tol"]):
+                if not _same_solution(spec["X"], w, wref, 1e-6, 10 * spec["tol"]):
                     failures.append(dict(site=f"C-order-differs:{site}", input=inp, observed=np.asarray(w).tolist(), expected=wref.tolist()))
             except Exception as e:
                 failures.append(dict(site=f"raises-C-order:{site}", input=inp, observed=repr(e)[:300]))
@@ -81,7 +96,7 @@ def oracle(tier, rng, deep=False):
             try:
                 out = compos.run_composition(spec, True)
                 ev += 1
-                if not np.allclose(np.asarray(out["w"]), wref, rtol=1e-5, atol=50 * spec["tol"]):
+                if not _same_solution(spec["X"], out["w"], wref, 1e-5, 50 * spec["tol"]):
                     failures.append(dict(site=f"CSC-differs:{site}", input=inp, observed=out["w"], expected=wref.tolist()))
             except (ValueError, AttributeError) as e:
                 msg = str(e)
